@@ -14,11 +14,16 @@ theorem namedIs_some (l : List Tbl) (k : Key) (n : String) (w : Bool) :
 
 theorem namedIs_none (l : List Tbl) (k : Key) (w : Bool) : namedIs l k none w = false := rfl
 
+theorem connHas_some (l : List Tbl) (k : Key) (n : String) (w : Bool) :
+    connHas l k (some n) w = (lookupTyped (findTbl l k) w n).isSome := rfl
+
+theorem connHas_none (l : List Tbl) (k : Key) (w : Bool) : connHas l k none w = false := rfl
+
 def GroupOk (A B : List Tbl) (k : Key) (g : Group) : Prop :=
   ∀ op ∈ g.2, targetDescOf A B op = g.1 ∧ op.key = k
 
 theorem objAdded_ok (P : Cmp) (A B : List Tbl) (k : Key) (inline : Bool) (c : Cons)
-    (hn : namedIs A k (consName c) c.isIdx = false) :
+    (hn : connHas A k (consName c) c.isIdx = false) :
     ∀ g ∈ objAdded P k inline c, GroupOk A B k g := by
   intro g hg op hop
   cases c with
@@ -70,7 +75,7 @@ theorem objRemoved_ok (P : Cmp) (A B : List Tbl) (k : Key) (inline : Bool) (c : 
 
 theorem objChanged_ok (A B : List Tbl) (k : Key) (c m : Cons)
     (hnames : consName c = consName m)
-    (hA : namedIs A k (consName m) m.isIdx = true)
+    (hA : connHas A k (consName m) m.isIdx = true)
     (hB : namedIs B k (consName m) m.isIdx = true) :
     ∀ g ∈ objChanged k c m, GroupOk A B k g := by
   intro g hg op hop
@@ -112,16 +117,27 @@ theorem cmpIdxUq_ok (P : Cmp) (A B : List Tbl) (k : Key) (conn md : Option Tbl)
     split at hg
     · simp at hg
     · rename_i hnone
-      have hnB : namedIs B k (consName p.2) p.2.isIdx = false := by
-        rw [hname, namedIs_some, hB]
+      have hlB : List.lookup p.1 (namedConsOf md) = none := by
         cases hl : List.lookup p.1 (namedConsOf md) with
         | none => rfl
         | some x => simp [hl] at hnone
+      have hnB : ∀ c : Cons, consName c = some p.1 → namedIs B k (consName c) c.isIdx = false := by
+        intro c hc
+        rw [hc, namedIs_some, hB, hlB]
       split at hg
-      · split at hg
+      · -- doubled name
+        rename_i cu ci hcu hci
+        split at hg
+        · simp only [List.mem_append] at hg
+          rcases hg with hg | hg
+          · exact objRemoved_ok P A B k _ cu (hnB cu (lookupTyped_spec _ _ _ _ hcu).2.1) g hg
+          · exact objRemoved_ok P A B k _ ci (hnB ci (lookupTyped_spec _ _ _ _ hci).2.1) g hg
         · simp at hg
-        · exact objRemoved_ok P A B k _ p.2 hnB g hg
-      · exact objRemoved_ok P A B k _ p.2 hnB g hg
+      · split at hg
+        · split at hg
+          · simp at hg
+          · exact objRemoved_ok P A B k _ p.2 (hnB p.2 hname) g hg
+        · exact objRemoved_ok P A B k _ p.2 (hnB p.2 hname) g hg
   · -- existing
     obtain ⟨hlm, hpm⟩ := firsts_spec _ p hp
     have hname := namedConsOf_name _ p.1 p.2 hpm
@@ -132,22 +148,38 @@ theorem cmpIdxUq_ok (P : Cmp) (A B : List Tbl) (k : Key) (conn md : Option Tbl)
       split at hg
       · simp at hg
       · rename_i c hlc
-        have hcname := namedConsOf_name _ p.1 c (lookup_mem _ _ _ hlc)
         split at hg
         · rename_i hdiff
+          have hdiff' : c.isIdx ≠ p.2.isIdx := by simpa [bne_iff_ne] using hdiff
+          -- the resolved object has another type: there is no reflected object of the same type
+          have htyped : lookupTyped conn p.2.isIdx p.1 = none := by
+            rcases lookupConn_spec _ _ _ _ hlc with h | h
+            · exact absurd (lookupTyped_spec _ _ _ _ h).1 hdiff'
+            · exact h.1
+          have hcname : consName c = some p.1 := by
+            rcases lookupConn_spec _ _ _ _ hlc with h | h
+            · exact (lookupTyped_spec _ _ _ _ h).2.1
+            · exact (lookupTyped_spec _ _ _ _ h.2).2.1
           simp only [List.mem_append] at hg
           rcases hg with hg | hg
           · refine objRemoved_ok P A B k _ c ?_ g hg
             rw [hcname, namedIs_some, hB, hlm]
             cases h1 : c.isIdx <;> cases h2 : p.2.isIdx <;> simp_all
           · refine objAdded_ok P A B k _ p.2 ?_ g hg
-            rw [hname, namedIs_some, hA, hlc]
-            cases h1 : c.isIdx <;> cases h2 : p.2.isIdx <;> simp_all
+            rw [hname, connHas_some, hA, htyped]
+            rfl
         · rename_i hsame
           have hsame' : c.isIdx = p.2.isIdx := by simpa [bne_iff_ne] using hsame
+          have htyped : lookupTyped conn p.2.isIdx p.1 = some c := by
+            rcases lookupConn_spec _ _ _ _ hlc with h | h
+            · exact h
+            · have := (lookupTyped_spec _ _ _ _ h.2).1
+              rw [hsame'] at this
+              cases hb : p.2.isIdx <;> simp [hb] at this
+          have hcname := (lookupTyped_spec _ _ _ _ htyped).2.1
           split at hg
           · refine objChanged_ok A B k c p.2 (by rw [hcname, hname]) ?_ ?_ g hg
-            · rw [hname, namedIs_some, hA, hlc]; simp [hsame']
+            · rw [hname, connHas_some, hA, htyped]; rfl
             · rw [hname, namedIs_some, hB, hlm]; simp
           · simp at hg
   · -- added
@@ -161,9 +193,9 @@ theorem cmpIdxUq_ok (P : Cmp) (A B : List Tbl) (k : Key) (conn md : Option Tbl)
       · simp at hg
       · rename_i hnone
         refine objAdded_ok P A B k _ p.2 ?_ g hg
-        rw [hname, namedIs_some, hA]
-        cases hl : List.lookup p.1 (namedConsOf conn) with
-        | none => rfl
+        rw [hname, connHas_some, hA]
+        cases hl : lookupConn conn p.2.isIdx p.1 with
+        | none => rw [lookupConn_none _ _ _ hl]; rfl
         | some x => simp [hl] at hnone
   · -- unnamed metadata unique constraints
     simp only [List.mem_filter] at hu
@@ -175,7 +207,7 @@ theorem cmpIdxUq_ok (P : Cmp) (A B : List Tbl) (k : Key) (conn md : Option Tbl)
       split at hg
       · simp at hg
       · refine objAdded_ok P A B k _ (.uq u) ?_ g hg
-        simp [consName, hnm, namedIs_none]
+        simp [consName, hnm, connHas_none]
 
 theorem fkNamed_eq (l : List Tbl) (k : Key) (t : Tbl) (h : findTbl l k = some t) (n : Option String) :
     fkNamed l k n = hasName (fkNames t) n := by
